@@ -328,6 +328,25 @@ fn run_op(c: &mut Ctx, op: &Value) -> Value {
             }
             j
         }
+        "tsp_neighbors" => {
+            // number of 3-opt neighbours of a cycle (drives the real TransitionCycleNeighborhood)
+            use rapid_solve::heuristics::common::Neighborhood;
+            use solver::transition_cycle_tsp::transition_cycle_neighborhood::TransitionCycleNeighborhood;
+            use solver::transition_cycle_tsp::TransitionCycleWithInfo;
+            let mut tours: im::HashMap<VehicleIdx, Tour> = im::HashMap::new();
+            let mut vs = Vec::new();
+            for v in op["vehicles"].as_array().unwrap() {
+                let vi = c.veh(&v[0]);
+                vs.push(vi);
+                if let Some(t) = v[1].as_str() {
+                    tours.insert(vi, c.tours[t].clone());
+                }
+            }
+            let nb = TransitionCycleNeighborhood::new(tours, nw.clone());
+            let start = TransitionCycleWithInfo::new(TransitionCycle::new(vs, 0), "start".to_string());
+            let n = nb.neighbors_of(&start).count();
+            json!({"neighbors": n})
+        }
         "cycle_new" => {
             let vs: Vec<VehicleIdx> = op["vehicles"].as_array().unwrap().iter().map(|v| c.veh(v)).collect();
             let cy = TransitionCycle::new(vs, op["counter"].as_i64().unwrap());
